@@ -270,13 +270,24 @@ def mentions_param(e, n=None, path_prefix=None):
     return False
 
 
+def _has_field(path, field):
+    # closure captures of a field path are named `base__field` by rustc
+    suf = "__" + field
+    for p in path:
+        if p == field or (isinstance(p, str) and p.endswith(suf)):
+            return True
+    return False
+
+
 def mentions_field(e, field):
     for s in walk(e):
-        if s[0] in ("param", "local") and field in s[2]:
+        if s[0] in ("param", "local") and _has_field(s[2], field):
             return True
-        if s[0] == "call" and field in s[4]:
+        if s[0] == "call" and _has_field(s[4], field):
             return True
-        if s[0] == "proj" and field in s[2]:
+        if s[0] == "proj" and _has_field(s[2], field):
+            return True
+        if s[0] in ("adt", "agg") and _has_field(s[-1] if s[0] == "agg" else s[4], field):
             return True
     return False
 
